@@ -28,3 +28,18 @@ Definition consistent_b (l : ldb) : bool :=
 
 Definition restore_safe_b (l : ldb) (h id : N) : bool :=
   opt_eqb (lget l (KIdx h)) (Some id) || is_some (lget l (KTemp h)).
+
+(* executable twin of [Consistent2]; hbl = the IDs of the blocks that have a payload *)
+Definition has_body_in (hbl : list N) (id : N) : bool := existsb (N.eqb id) hbl.
+Definition consistent2_b (hbl : list N) (l : ldb) : bool :=
+  consistent_b l
+  && match lget l KFin, lget l KTipMark with
+     | Some f, Some t =>
+       (f <=? t)
+       && forallb (fun k => is_some (lget l (KDiff (f + 1 + N.of_nat k)))) (seq 0 (N.to_nat (t - f)))
+     | _, _ => false
+     end
+  && forallb (fun e => match fst e with
+                       | KIdx _ => if has_body_in hbl (snd e) then is_some (lget l (KBody (snd e))) else true
+                       | _ => true
+                       end) l.
